@@ -9,6 +9,8 @@ mod c05;
 mod stats;
 mod c13;
 mod c16;
+mod c17;
+mod c18;
 mod c15;
 
 fn main() {
@@ -29,6 +31,8 @@ fn main() {
         ("c13", "record") => c13::record(rest),
         ("c16", "replay") => c16::replay(rest),
         ("c15", "replay") => c15::replay(rest),
+        ("c18", "replay") => c18::replay(rest),
+        ("c17", "replay") => c17::replay(rest),
         (p, m) => util::tool_error(&format!("unknown command {p} {m}")),
     }
 }
